@@ -29,7 +29,34 @@ def run(prog, an, rep):
                '(separators, key=arg, surrounding text) is not evaluated')
     rep.run_rules(prog, an, [registry, reactor_guards, addressed_to_robot,
                              flags_from_author, error_conversion,
-                             option_writers, cmdline_defaults])
+                             option_writers, cmdline_defaults, doc_note])
+
+
+def doc_note(prog, an, rep):
+    """Cross-reference only (never armed): the user documentation's
+    "requires admin rights?" column against the registry."""
+    import os
+    import re as _re
+    path = os.path.join(rep.root, 'bert_e', 'docs', 'USER_DOC.md')
+    try:
+        text = open(path, encoding='utf-8').read()
+    except OSError:
+        return
+    opts, _ = common.reactor_registry(prog, an)
+    diff = []
+    for line in text.splitlines():
+        m = _re.match(r'^\|\s*(\w+)\s*\|[^|]*\|\s*(yes|no)\s*\|\s*(yes|no)',
+                      line)
+        if m and m.group(1) in opts:
+            o = opts[m.group(1)]
+            if (m.group(2) == 'yes') != o['privileged']:
+                diff.append('%s (documented %s, registered privileged=%s)' %
+                            (m.group(1), m.group(2), o['privileged']))
+    if diff:
+        rep.note('N-C07-1 (informational, not armed): USER_DOC.md and the '
+                 'option registry disagree on admin rights for: %s. The '
+                 'property speaks only of bypass_* and approve.' %
+                 '; '.join(diff))
 
 
 def registry(prog, an, rep):
